@@ -10,6 +10,7 @@ FILES = {
     "clean": "alpha\nbeta\ngamma\ndelta\nepsilon\n",
     "dups": "alpha\nbeta\nalpha\ngamma\nbeta\nalpha\n",
     "twins": "polish Polish\nice-cream\tx-ray\nété 4x\n",
+    "percent": "100%\n%d\nfifty%s\n%\n",
     "layout": "one two  three\n\n four\r\nfive\n\n",
     "uncap": "4x\n7up\nUSA\n",
     "twinonly": "polish\nalpha\nPolish\nbeta\n",
@@ -132,6 +133,12 @@ def run(ctx):
             add(sub, [f])
     for s in SEPS:
         add("words", [("separator", s), ("size", "3")])
+    for L in ("1", "2", "3", "4", "5", "6"):          # requirements that are hard to meet in a short password: the refusal threshold
+        for rq in ("uppercase,lowercase,digits,symbols", "digits,symbols", "symbols", "uppercase,digits"):
+            add("characters", [("length", L), ("require", rq)])
+    for rep in range(6):
+        seen.discard(("words", "--file=" + finfo["percent"]["path"], "--size=3"))
+        add("words", [("file", "percent"), ("size", "3")])
     for c in CAPS:
         add("words", [("capitalize", c), ("list", "syllables")])
     for f in list(FILES) + ["missing"]:
